@@ -1225,6 +1225,16 @@ func main() {
 	autoModule(out, "DequeSites", dqS, allFuncs(dqS, "linked.go"), map[string]string{}, "")
 	autoModule(out, "StatsSites", stS, allFuncs(stS, "counter.go", "stats.go"), map[string]string{}, "")
 
+	// built-in calculators and the Entry snapshot (what cfgOf in Proofs/TableRefine assumes about them), options, clock
+	autoModule(out, "CalcSites", ot, allFuncs(ot, "expiry_calculator.go", "refresh_calculator.go", "entry.go"), map[string]string{}, "")
+	autoModule(out, "OptSites", ot, allFuncs(ot, "options.go", "clock.go", "cache.go"), map[string]string{}, "")
+	// the twelve generated node layouts, every method
+	var nodeFiles []string
+	for _, f := range np.files {
+		nodeFiles = append(nodeFiles, filepath.Base(np.fset.Position(f.Pos()).Filename))
+	}
+	autoModule(out, "NodeSites", np, allFuncs(np, nodeFiles...), map[string]string{}, "")
+
 	// ---- protocol skeletons
 	s = header("Skeleton")
 	type sk struct {
